@@ -14,7 +14,8 @@ def universe():
 def gen_profile(rng, plug, bl, builtin, present_ids):
     """include / exclude sets drawn from plugin IDs, blacklist IDs, B001, unknown IDs (biased to IDs that occur)"""
     pool = list(present_ids) * 3 + plug + bl + ["B001", "B001", "B999", "X123"]
-    kind = rng.choice(["inc", "exc", "both", "b001_inc", "b001_exc", "b001_specific", "empty"])
+    kind = rng.choice(["inc", "exc", "both", "b001_inc", "b001_exc", "b001_specific", "empty", "plugins_only", "one_plugin",
+                       "b001_inc_specific_exc", "b001_exc_specific_inc", "skip_all_blacklist"])
     inc, exc = set(), set()
     if kind in ("inc", "both"):
         inc = set(rng.sample(pool, rng.randint(1, 6)))
@@ -26,6 +27,18 @@ def gen_profile(rng, plug, bl, builtin, present_ids):
         exc = {"B001"} | set(rng.sample(plug, rng.randint(0, 3)))
     if kind == "b001_specific":
         inc = {"B001", rng.choice(bl)} | set(rng.sample(plug, rng.randint(0, 2)))
+    if kind == "plugins_only":      # no blacklist test left: the import visits run no check at all
+        inc = set(rng.sample([i for i in present_ids if i in plug] or plug, rng.randint(1, 4)))
+    if kind == "one_plugin":
+        inc = {rng.choice([i for i in present_ids if i in plug] or plug)}
+    if kind == "b001_inc_specific_exc":   # B001 in one list, a specific blacklist ID only in the other
+        inc = {"B001"} | set(rng.sample(plug, rng.randint(0, 2)))
+        exc = {rng.choice([i for i in present_ids if i in bl] or bl)}
+    if kind == "b001_exc_specific_inc":
+        exc = {"B001"}
+        inc = {rng.choice([i for i in present_ids if i in bl] or bl)} | set(rng.sample(plug, rng.randint(0, 2)))
+    if kind == "skip_all_blacklist":
+        exc = {"B001"}
     return kind, inc, exc
 
 
@@ -56,6 +69,8 @@ def run(res, ctx):
                 "where the unrestricted run has at least one finding")
     programs = [progs.make_program(rng) for _ in range(n_prog)]
     programs.append(("import pickle, subprocess\nimport os, telnetlib\nx = 1\n", ["import_multi2"]))
+    programs.append(("import subprocess as sp\nfrom subprocess import Popen\nimport pickle\nfrom hashlib import md5\nfrom flask import Flask\n"
+                     "sp.Popen(cmd, shell=True)\nPopen(cmd, shell=True)\npickle.loads(b)\nmd5(d)\napp.run(debug=True)\nassert x\n", ["alias_mix"]))
     scratch = C.Scratch()
     d = C.Driver() if ctx["driver_ok"] else None
     try:
@@ -68,6 +83,10 @@ def run(res, ctx):
             sels.append(gen_profile(rng, plug, bl, builtin, all_present))
         sels.append(("only_B404", {"B404"}, set()))
         sels.append(("skip_B403", set(), {"B403"}))
+        sels.append(("only_B602", {"B602"}, set()))
+        sels.append(("skip_B001", set(), {"B001"}))
+        sels.append(("b001_vs_specific", {"B001"}, {"B301"}))
+        sels.append(("b001_plugin_vs_specific", {"B001", "B101"}, {"B404"}))
         for kind, inc, exc in sels:
             if inc & exc:
                 continue
